@@ -188,7 +188,112 @@ def gen(repo):
     if not t_send or not t_async:
         raise TranslateError("Transport::send / Transport::sendAsync: expected plain delegation to the engine")
 
-    t = HEADER % (TYPES + ", " + ENGINE)
+    # ---- the eventfd wake-up protocol: write after push_back inside the lock scope; drainEvt() before process() in both loops
+    wake_ok = True
+    for b in enq:
+        pushes = [m.start() for m in re.finditer(r"_cmds\s*\.\s*push_back\s*\(", b)]
+        writes = [m.start() for m in re.finditer(r"::\s*write\s*\(\s*_eventFd\b", b)]
+        if len(pushes) != 1 or len(writes) != 1:
+            raise TranslateError("enqueue(): expected exactly one `_cmds.push_back(` and one `::write(_eventFd, ...)` (found %d / %d)" % (len(pushes), len(writes)))
+        if not (pushes[0] < writes[0] and _under_lock(b, r"::\s*write\s*\(\s*_eventFd\b", "_cmdMutex", "enqueue")):
+            wake_ok = False
+    lu = cxxscan.function_body(esrc, "loopUnbatched")
+    m_evt = re.search(r"if\s*\(\s*fd\s*==\s*_eventFd\s*\)\s*\{", lu)
+    if not m_evt:
+        raise TranslateError("loopUnbatched(): the `if (fd == _eventFd)` arm was not recognised")
+    evt_block = lu[m_evt.end():cxxscan.match_brace(lu, m_evt.end() - 1)]
+    lb = cxxscan.function_body(esrc, "loopBatched")
+    m_lam = re.search(r"\[\s*this\s*\]\s*\(\s*\)\s*\{([^{}]*\bprocess\s*\(\s*\)[^{}]*)\}", lb)
+    if not m_lam:
+        raise TranslateError("loopBatched(): the onEventFd lambda `[this]() { drainEvt(); process(); }` was not recognised")
+    def _order(block, where):
+        d = [m.start() for m in re.finditer(r"\bdrainEvt\s*\(\s*\)\s*;", block)]
+        pr = [m.start() for m in re.finditer(r"\bprocess\s*\(\s*\)\s*;", block)]
+        if len(d) != 1 or len(pr) != 1:
+            raise TranslateError("%s: expected exactly one `drainEvt();` and one `process();` in the eventfd handler (found %d / %d)" % (where, len(d), len(pr)))
+        return d[0] < pr[0]
+    drain_first = _order(evt_block, "loopUnbatched") and _order(m_lam.group(1), "loopBatched")
+    n_proc_calls = len(re.findall(r"\bprocess\s*\(\s*\)\s*;", esrc))
+    de = cxxscan.function_body(esrc, "drainEvt")
+    if not re.search(r"while\s*\(\s*::\s*read\s*\(\s*_eventFd\s*,[^;{]*?\)\s*>\s*0\s*\)", de) or "_cmdMutex" in de:
+        raise TranslateError("drainEvt(): expected `while (::read(_eventFd, ...) > 0) {}` without taking _cmdMutex")
+    m_reg = re.search(r"addEpoll\s*\(\s*_eventFd\s*,\s*([^)]+?)\s*\)", esrc)
+    if not m_reg:
+        raise TranslateError("the epoll registration of _eventFd (`addEpoll(_eventFd, EPOLLIN)`) was not found")
+
+    # ---- send(): callees and return statements (a delegation to a chunking helper changes both)
+    KW = {"if", "while", "for", "switch", "return", "sizeof", "static_cast", "reinterpret_cast", "const_cast", "catch", "do"}
+    snd_nostr = re.sub(r'"(?:[^"\\\\]|\\\\.)*"', '""', snd)
+    callees = sorted(set(c for c in re.findall(r"([A-Za-z_][\w:]*(?:\s*\.\s*\w+)*)\s*\(", snd_nostr) if c.split("::")[-1] not in KW and c not in KW))
+    callees = [re.sub(r"\s+", "", c) for c in callees]
+    n_ret_send = len(re.findall(r"\breturn\b", snd_nostr))
+
+    # ---- readAvail: the exit condition of the read loop
+    ra = cxxscan.function_body(esrc, "readAvail", signature_contains="Session *s")
+    ra_loops = re.findall(r"\b(for|while|do)\b", re.sub(r'"(?:[^"\\\\]|\\\\.)*"', '""', ra))
+    if re.match(r"\s*for\s*\(\s*;\s*;\s*\)\s*\{", ra) and ra_loops == ["for"] and "useEdgeTriggered" not in ra:
+        ra_drains = True
+    elif "useEdgeTriggered" in ra and len([x for x in ra_loops if x in ("for", "do")]) <= 1 and (
+            re.search(r"\}\s*while\s*\(\s*[!\w.]+\s*\)\s*;\s*$", ra) or re.match(r"\s*(?:const\s+)?(?:bool|auto)\s+\w+\s*=[^;]*useEdgeTriggered[^;]*;\s*(?:do|while|for)\b", ra)
+            or re.match(r"\s*(?:while|for)\s*\([^)]*useEdgeTriggered", ra)):
+        ra_drains = False        # the loop goes on only in edge-triggered mode: level-triggered = one read per readiness notification
+    else:
+        raise TranslateError("readAvail(): neither the unconditional `for (;;)` read loop nor a loop conditioned on useEdgeTriggered (loops: %s)" % ra_loops)
+    ra_breaks = len(re.findall(r"\bbreak\s*;", ra))
+    ra_returns = len(re.findall(r"\breturn\s*;", ra))
+
+    # ---- process(): the stale-timeout guards of the Close arm
+    guards = re.findall(r"if\s*\(\s*c\s*\.\s*closeOrigin\s*==\s*CloseOrigin::(\w+)\s*\)\s*\{\s*if\s*\(\s*([^;{}]+?)\s*\)\s*break\s*;\s*\}", proc)
+    n_origin_tests = len(re.findall(r"closeOrigin\s*==", proc))
+    if n_origin_tests != len(guards):
+        raise TranslateError("process(): %d closeOrigin tests, only %d of the shape `if (c.closeOrigin == CloseOrigin::X) { if (COND) break; }`" % (n_origin_tests, len(guards)))
+    m_close_arm = re.search(r"case\s+Cmd::Close\s*:", proc)
+    if not m_close_arm or not re.search(r"closeNow\s*\(\s*s\s*,\s*c\s*\.\s*closeReason\s*,\s*c\s*\.\s*closeMsg\s*,\s*0\s*\)\s*;", proc[m_close_arm.end():]):
+        raise TranslateError("process(): the Close arm `closeNow(s, c.closeReason, c.closeMsg, 0);` was not recognised")
+
+    # ---- shutdownDrain: process(), close every open session with its callback, then close the queue and take the residual under the lock
+    sd = cxxscan.function_body(esrc, "shutdownDrain")
+    marks = [("process", r"\bprocess\s*\(\s*\)\s*;"), ("skip-closed", r"if\s*\(\s*!s\s*\|\|\s*s\s*->\s*closed\s*\)\s*continue\s*;"),
+             ("mark-closed", r"s\s*->\s*closed\s*=\s*true\s*;"), ("epoll-del", r"delEpoll\s*\(\s*s\s*->\s*fd\s*\)\s*;"),
+             ("close-fd", r"::\s*close\s*\(\s*s\s*->\s*fd\s*\)\s*;"), ("close-callback", r"closeCb\s*\(\s*s\s*->\s*id\s*,"),
+             ("queue-closed", r"_cmdsClosed\s*=\s*true\s*;"), ("residual-swap", r"residual\s*\.\s*swap\s*\(\s*_cmds\s*\)\s*;")]
+    pos = []
+    for nm, rx in marks:
+        hits = [m.start() for m in re.finditer(rx, sd)]
+        if len(hits) != 1:
+            raise TranslateError("shutdownDrain(): expected exactly one `%s` step, found %d" % (nm, len(hits)))
+        pos.append((hits[0], nm))
+    sd_steps = [nm for _, nm in sorted(pos)]
+    sd_locked = _under_lock(sd, r"residual\s*\.\s*swap\s*\(\s*_cmds\s*\)", "_cmdMutex", "shutdownDrain") and _under_lock(sd, r"_cmdsClosed\s*=\s*true", "_cmdMutex", "shutdownDrain")
+    sd_dispatch = len(re.findall(r"\bdoSend\s*\(|\bdoConnect\s*\(|\bdoAddListener\s*\(", sd))
+
+    # ---- Transport::sendSync / ITransport::sendSyncCancellable only delegate (one engine->send, no loop)
+    ss = cxxscan.function_body(isrc, "sendSync", signature_contains="BufferView data")
+    ss_calls = re.findall(r"_impl\s*->\s*engine\s*->\s*(\w+)\s*\(\s*sid\s*,\s*data\.data\(\)\s*,\s*data\.size\(\)\s*\)", ss)
+    ss_engine = [c for c in re.findall(r"_impl\s*->\s*engine\s*->\s*(\w+)\s*\(", ss) if c != "getIoThreadId"]
+    ss_loops = len(re.findall(r"\b(?:while|for|do)\b", re.sub(r'"(?:[^"\\\\]|\\\\.)*"', '""', ss)))
+    if ss_calls != ss_engine:
+        raise TranslateError("Transport::sendSync: an engine call other than `engine->send(sid, data.data(), data.size())`: %s" % ss_engine)
+    sc = cxxscan.function_body(isrc, "sendSyncCancellable", signature_contains="CancellationToken")
+    sc_calls = re.findall(r"\b(sendSync|send|sendAsync)\s*\(\s*sid\s*,\s*data\s*[,)]", sc)
+    sc_loops = len(re.findall(r"\b(?:while|for|do)\b", re.sub(r'"(?:[^"\\\\]|\\\\.)*"', '""', sc)))
+
+    # ---- EventBatchProcessor::processBatch: special fds inline in the first pass, the others queued and handled in a second pass
+    bsrc = read(repo, "include/iora/network/event_batch_processor.hpp")
+    pb = cxxscan.function_body(bsrc, "processBatch", signature_contains="SpecialEventHandler")
+    m_p1 = re.search(r"for\s*\(\s*int\s+i\s*=\s*0\s*;\s*i\s*<\s*n\s*;\s*\+\+i\s*\)\s*\{", pb)
+    m_p2 = re.search(r"for\s*\(\s*const\s+auto\s*&\s*\[\s*fd\s*,\s*eventMask\s*\]\s*:\s*(\w+)\s*\)\s*\{", pb)
+    if not m_p1 or not m_p2 or m_p2.start() < m_p1.start():
+        raise TranslateError("processBatch(): the two passes (for i < n ... / for [fd, eventMask] : normalEvents) were not recognised")
+    p1 = pb[m_p1.end():cxxscan.match_brace(pb, m_p1.end() - 1)]
+    p2 = pb[m_p2.end():cxxscan.match_brace(pb, m_p2.end() - 1)]
+    m_sp = re.search(r"if\s*\(\s*specialHandler\s*\(\s*fd\s*,\s*eventMask\s*\)\s*\)\s*\{\s*continue\s*;\s*\}", p1)
+    m_q = re.search(r"(\w+)\s*\.\s*(\w+)\s*\(\s*fd\s*,\s*eventMask\s*\)\s*;", p1[m_sp.end():] if m_sp else "")
+    if not m_sp or not m_q or "generalHandler" in p1 or not re.search(r"generalHandler\s*\(\s*fd\s*,\s*eventMask\s*\)\s*;", p2):
+        raise TranslateError("processBatch(): expected `if (specialHandler(fd, eventMask)) continue; normalEvents.emplace_back(fd, eventMask);` then `generalHandler(fd, eventMask)` in the second pass")
+    batch_shape = ["special-inline-first-pass", "%s.%s" % (m_q.group(1), m_q.group(2)), "second-pass-over:" + m_p2.group(1)]
+
+    t = HEADER % (TYPES + ", " + ENGINE + ", include/iora/network/transport_impl.hpp, include/iora/network/event_batch_processor.hpp")
     t += "namespace Iora.Gen.TcpSession\n"
     t += "/-- `TransportConfig::maxWriteQueue` default -/\ndef maxWriteQueue : Nat := %d\n" % mwq
     t += "/-- `TransportConfig::ioReadChunk` default -/\ndef ioReadChunk : Nat := %d\n" % chunk
@@ -242,5 +347,32 @@ def gen(repo):
     t += "/-- `TcpEngine::sendAsync`: number of `send(sid, data, len)` calls; `Transport::send` / `Transport::sendAsync`: the engine function they delegate to -/\n"
     t += "def sendAsyncSendCalls : Nat := %d\n" % len(sa_calls)
     t += "def transportSendDelegates : List String := %s\n" % _lean_strs([t_send.group(1), t_async.group(1)])
+    t += "/-- both `enqueue` overloads: the `::write(_eventFd, ...)` follows `_cmds.push_back` and lies inside the same `_cmdMutex` scope -/\n"
+    t += "def enqueueWakeAfterPushUnderLock : Bool := %s\n" % ("true" if wake_ok else "false")
+    t += "/-- `loopUnbatched` (the `fd == _eventFd` arm) and `loopBatched` (the onEventFd lambda): `drainEvt();` textually precedes `process();`; number of `process();` call statements in the engine (2 loops + shutdownDrain) -/\n"
+    t += "def loopDrainBeforeProcess : Bool := %s\n" % ("true" if drain_first else "false")
+    t += "def processCallStatements : Nat := %d\n" % n_proc_calls
+    t += "/-- the event mask `_eventFd` is registered with (no EPOLLET: level-triggered, reported while the counter is non-zero) -/\n"
+    t += "def eventFdEpollMask : String := \"%s\"\n" % norm(m_reg.group(1))
+    t += "/-- `TcpEngine::send`: every callee (sorted, distinct) and the number of `return` statements -/\n"
+    t += "def sendCallees : List String := %s\n" % _lean_strs(callees)
+    t += "def sendReturnCount : Nat := %d\n" % n_ret_send
+    t += "/-- `readAvail`: true iff its read loop is the unconditional `for (;;)` (left only by break/return at EAGAIN / WANT_* / EOF / error) — also in level-triggered mode; false iff the loop goes on only when `_config.useEdgeTriggered`; number of `break;` / `return;` exits -/\n"
+    t += "def readAvailDrainsLevelTriggered : Bool := %s\n" % ("true" if ra_drains else "false")
+    t += "def readAvailBreaks : Nat := %d\n" % ra_breaks
+    t += "def readAvailReturns : Nat := %d\n" % ra_returns
+    t += "/-- `process()`, Close arm: for each `c.closeOrigin == CloseOrigin::X` test the condition under which the command is dropped (`break`) -/\n"
+    t += "def processCloseGuards : List String := %s\n" % _lean_strs(["%s:%s" % (o, norm(cnd)) for o, cnd in guards])
+    t += "/-- `Transport::sendSync`: the engine functions called with (sid, data.data(), data.size()) and its loop count; `ITransport::sendSyncCancellable`: the send functions it calls and its loop count -/\n"
+    t += "def transportSendSyncDelegates : List String := %s\n" % _lean_strs(ss_calls)
+    t += "def transportSendSyncLoops : Nat := %d\n" % ss_loops
+    t += "def transportSendSyncCancellableDelegates : List String := %s\n" % _lean_strs(sc_calls)
+    t += "def transportSendSyncCancellableLoops : Nat := %d\n" % sc_loops
+    t += "/-- `EventBatchProcessor::processBatch`: special fds handled inside the first pass, where the other events go, what the second pass walks -/\n"
+    t += "def batchProcessorShape : List String := %s\n" % _lean_strs(batch_shape)
+    t += "/-- `shutdownDrain`: its steps in source order; queue closing and residual swap under `_cmdMutex`; number of doSend/doConnect/doAddListener calls (the residual is dropped, not dispatched) -/\n"
+    t += "def shutdownDrainSteps : List String := %s\n" % _lean_strs(sd_steps)
+    t += "def shutdownResidualUnderCmdMutex : Bool := %s\n" % ("true" if sd_locked else "false")
+    t += "def shutdownDrainDispatchCalls : Nat := %d\n" % sd_dispatch
     t += "end Iora.Gen.TcpSession\n"
     return "IoraModel/Gen/TcpSession.lean", t
